@@ -495,11 +495,28 @@ def alias_guard(ctx, d3):
             d3.fail('%s.%s' % (cname, mname), 'clear-unguarded', 'dict cleared without excluding that the source is the same dict', g, g.node)
         else:
             d3.ok('%s.%s' % (cname, mname), 'clear happens only after "dct is other.dct" was excluded', g)
+    from ..cfg import CFG as _CFG
     for cname in ('ChemicalIndexer', 'MaterialIndexer'):
         g = prog.method(cname, 'copy_like', rel=IX)
-        first = g.node.body[0]
-        if isinstance(first, ast.If) and src(first.test) in ('self is other', 'other is self') and isinstance(first.body[0], ast.Return):
-            d3.ok('%s.copy_like' % cname, 'returns immediately when the source is the receiver (before any empty())', g, first)
+        cfg = _CFG(g.node)
+        dom = cfg.dominators()
+        guard = None
+        for nd in cfg.nodes:
+            if nd.kind == 'test' and isinstance(nd.ast, ast.If) and src(nd.ast.test) in ('self is other', 'other is self') \
+                    and nd.ast.body and isinstance(nd.ast.body[0], ast.Return):
+                guard = nd
+        writers = []
+        for nd in cfg.nodes:
+            if nd.kind != 'stmt' or nd.ast is None:
+                continue
+            for x in ast.walk(nd.ast):
+                if isinstance(x, ast.Call) and isinstance(x.func, ast.Attribute) and x.func.attr in ('empty', 'copy_like', '_expand_phases') \
+                        and src(x.func.value).startswith('self'):
+                    writers.append(nd)
+                if isinstance(x, ast.Subscript) and isinstance(x.ctx, ast.Store):
+                    writers.append(nd)
+        if guard is not None and writers and all(guard.id in dom[w.id] for w in writers):
+            d3.ok('%s.copy_like' % cname, 'the "self is other: return" guard dominates all %d writing statements' % len(writers), g, guard.ast)
         else:
             d3.fail('%s.copy_like' % cname, 'no-self-guard', 'copy_like may empty the receiver although it is its own source', g, g.node)
 
